@@ -3,7 +3,7 @@ CONSTANTS
   Rules <- RuleIds
   Cfg <- CfgTable
   Atomic = TRUE
-  MaxOps = 3
+  MaxOps = 2
 INVARIANT C14_OwnConfig
 INVARIANT C14_Inductive
 CHECK_DEADLOCK FALSE
